@@ -624,3 +624,49 @@ pub fn ast_program_text(rng: &mut Rng, cfg: &ProgCfg) -> String {
     s.push_str(&out);
     s
 }
+
+/// Small exhaustive family around "an RF-control instruction that USES no defined frame but BLOCKS some"
+/// (and its neighbours): frame sets where a qubit's frames are exact single-qubit / only multi-qubit / absent,
+/// × RESET q / bare RESET / blocking and non-blocking PULSE, CAPTURE, RAW-CAPTURE on an UNDEFINED frame sharing
+/// a qubit with defined ones / DELAY, FENCE on a qubit without exact frames, × position in the block (alone,
+/// first, last, between) × whether a second qubit is used by the program.
+pub fn frame_shape_programs() -> Vec<String> {
+    let frame_sets: [&[(&str, &str)]; 7] = [
+        &[],
+        &[("0", "x")],
+        &[("0 1", "cz")],
+        &[("0", "x"), ("1", "x")],
+        &[("0", "x"), ("0 1", "cz")],
+        &[("1", "x"), ("0 1", "cz")],
+        &[("0 1", "cz"), ("1 2", "cz"), ("2", "x")],
+    ];
+    let subjects = [
+        "RESET 0",
+        "RESET 1",
+        "RESET",
+        "PULSE 0 \"u\" flat(duration: 1.0, iq: 1.0)",
+        "NONBLOCKING PULSE 0 \"u\" flat(duration: 1.0, iq: 1.0)",
+        "CAPTURE 1 \"u\" flat(duration: 1.0, iq: 1.0) ro[0]",
+        "RAW-CAPTURE 0 1 \"u\" 1.0 ro[0]",
+        "DELAY 0 1.0",
+        "FENCE 0",
+        "SWAP-PHASES 0 \"u\" 1 \"u\"",
+    ];
+    let before = ["", "MOVE ro[1] 1\n", "PULSE 0 1 \"cz\" flat(duration: 1.0, iq: 1.0)\n", "FENCE 1\n"];
+    let after = ["", "MOVE ro[2] 1\n", "PULSE 0 \"x\" flat(duration: 1.0, iq: 1.0)\n", "HALT\n"];
+    let mut out = Vec::new();
+    for fs in frame_sets {
+        let mut header = String::new();
+        for (q, n) in fs {
+            header.push_str(&format!("DEFFRAME {q} \"{n}\":\n    SAMPLE-RATE: 1.0\n"));
+        }
+        for subject in subjects {
+            for b in before {
+                for a in after {
+                    out.push(format!("{header}{b}{subject}\n{a}"));
+                }
+            }
+        }
+    }
+    out
+}
